@@ -74,26 +74,31 @@ class Truth:
         return None
 
 
-def gen_truth(rng, n_events=None, dt=None, noise=0.0):
+def gen_truth(rng, n_events=None, dt=None, noise=0.0, datum=0.0, isolated=0):
+    """`isolated`: the record starts with that many short dry spells low on the curve, each lifted clear of the
+    one before by a large storm, so that these recession pieces share no level with one another or with the
+    main body that follows (they are left out of the recession curve; the storms still overlap)."""
     dt = dt or rng.choice([600, 1200, 1800, 3600])
     t0 = (rng.randint(631152000, 1893456000) // dt) * dt
     sy = rng.choice([0.125, 0.25, 0.5])
-    NZ = 160 if (n_events or 0) <= 9 else 40 * (n_events + 2)
-    top = float(rng.randint(-40, 120)) / 4
+    NZ = (160 if (n_events or 0) <= 9 else 40 * (n_events + 2)) + 12 * isolated
+    top = float(rng.randint(-40, 120)) / 4 + datum
     Z = [top]
     for _ in range(NZ):
         Z.append(Z[-1] - rng.choice([0.5, 0.75, 1.0, 1.25, 1.5, 2.0, 3.0]))
     s, j = 0.25, (2.0 if not noise else 3600.0 / dt)
     n_events = n_events or rng.randint(3, 9)
-    pos = rng.randint(10, 40) if NZ == 160 else rng.randint(NZ // 3, NZ // 2)          # index into Z
+    NZ0 = NZ - 12 * isolated
+    pos = rng.randint(10, 40) if NZ0 == 160 else rng.randint(NZ0 // 3, NZ0 // 2)          # index into Z
+    pos += 10 * isolated
     level = [Z[pos]]
     rain = []
     events = []
     # leading dry spell cannot be an interstorm (no rain yet): start with a storm
-    for ev in range(n_events):
+    for ev in range(n_events + isolated):
         # storm: climb from Z[pos] to Z[m], m < pos
         q = rng.randint(1, 3)
-        m = max(0, pos - rng.randint(6, 25))
+        m = max(0, pos - (rng.randint(6, 25) if ev >= isolated else rng.randint(12, 14)))
         rise = Z[m] - Z[pos]
         per = [rise / q] * q
         # keep every step's rise a multiple of 1/8 mm and well above the jump threshold
@@ -111,7 +116,7 @@ def gen_truth(rng, n_events=None, dt=None, noise=0.0):
         pos += 1
         level.append(Z[pos])
         # dry recession
-        L = rng.randint(3, 14)
+        L = rng.randint(3, 14) if ev >= isolated else rng.randint(2, 3)
         L = min(L, NZ - pos - 1)
         for _ in range(L):
             rain.append(0.0)
@@ -144,7 +149,7 @@ def run_workflow(ctx, rec_rows, s, j, zstep, rise_ref=None, recession_ref=None, 
     files = cli.write_dataset(ctx.tmp, name, *rec_rows)
     db = ctx.scratch(name + ".sqlite3")
     out = {"db": db, "files": files, "status": {}}
-    verbosity = ctx.rng.choice([0, 0, 0, 0, 1, 3, 4]) if _N[0] % 3 == 0 else 0
+    verbosity = ctx.rng.choice([0, 1, 2, 3, 4]) if _N[0] % 2 == 0 else 0
     vargs = ["-" + "v" * verbosity, "--logfile", db + ".log"] if verbosity else []
     for st in steps:
         cli.VERBOSITY[0] = verbosity
